@@ -445,6 +445,15 @@ fn main() {{
             ),
         ),
         (
+            "Write::__from_ref_and_ptr (hidden helper of field!) without unsafe".into(),
+            body(
+                "#[derive(Collect)]\n#[collect(no_drop)]\nstruct Root<'gc> { c: Gc<'gc, RefLock<Option<C<'gc>>>> }",
+                "Root { c: Gc::new(mc, RefLock::new(None)) }",
+                "let r: &RefLock<Option<C>> = &*root.c; *Write::__from_ref_and_ptr(r, r as *const _).unlock().borrow_mut() = Some(child);",
+                "root.c.borrow().is_some()",
+            ),
+        ),
+        (
             "Write::assume without unsafe".into(),
             body(
                 "#[derive(Collect)]\n#[collect(no_drop)]\nstruct Root<'gc> { c: Gc<'gc, RefLock<Option<C<'gc>>>> }",
@@ -595,6 +604,72 @@ fn main() {{
                 "Root { holder: Gc::new(mc, vec![N { inner: Gc::new(mc, M { f: RefLock::new(None) }) }].into_boxed_slice()) }",
                 "let w = Gc::write(mc, root.holder).as_deref(); *w[First].unlock().borrow_mut() = Some(child);",
                 "root.holder[0].inner.f.borrow().is_some()",
+            ),
+        ),
+        (
+            "root replaced through mutate_root while Marked".into(),
+            format!(
+                r#"{PRELUDE}
+#[derive(Collect)]
+#[collect(no_drop)]
+struct Root<'gc> {{ c: Option<C<'gc>> }}
+fn main() {{
+    let mut arena = Arena::<Rootable![Root<'_>]>::new(|_mc| Root {{ c: None }});
+    arena.finish_marking();
+    arena.mutate_root(|mc, root| {{ root.c = Some(Gc::new(mc, Static(Child(7)))); }});
+    arena.finish_cycle();
+    let held: bool = arena.mutate(|_mc, root| root.c.is_some());
+    if held && DROPPED.with(|d| d.get()) > 0 {{ println!("LOST"); std::process::exit(3); }}
+    if !held {{ println!("NOT-STORED"); std::process::exit(4); }}
+    arena.finish_cycle();
+    if DROPPED.with(|d| d.get()) > 0 {{ println!("LOST"); std::process::exit(3); }}
+    println!("OK");
+}}
+"#
+            ),
+        ),
+        (
+            "root replaced through map_root while Marked".into(),
+            format!(
+                r#"{PRELUDE}
+#[derive(Collect)]
+#[collect(no_drop)]
+struct Root<'gc> {{ c: Option<C<'gc>> }}
+fn main() {{
+    let mut arena = Arena::<Rootable![Root<'_>]>::new(|_mc| Root {{ c: None }});
+    arena.finish_marking();
+    let mut arena = arena.map_root::<Rootable![Root<'_>]>(|mc, _old| Root {{ c: Some(Gc::new(mc, Static(Child(7)))) }});
+    arena.finish_cycle();
+    let held: bool = arena.mutate(|_mc, root| root.c.is_some());
+    if held && DROPPED.with(|d| d.get()) > 0 {{ println!("LOST"); std::process::exit(3); }}
+    if !held {{ println!("NOT-STORED"); std::process::exit(4); }}
+    arena.finish_cycle();
+    if DROPPED.with(|d| d.get()) > 0 {{ println!("LOST"); std::process::exit(3); }}
+    println!("OK");
+}}
+"#
+            ),
+        ),
+        (
+            "root replaced through try_map_root while Marked".into(),
+            format!(
+                r#"{PRELUDE}
+#[derive(Collect)]
+#[collect(no_drop)]
+struct Root<'gc> {{ c: Option<C<'gc>> }}
+fn main() {{
+    let mut arena = Arena::<Rootable![Root<'_>]>::new(|_mc| Root {{ c: None }});
+    arena.finish_marking();
+    let mut arena = arena.try_map_root::<Rootable![Root<'_>], ()>(|mc, _old| Ok(Root {{ c: Some(Gc::new(mc, Static(Child(7)))) }})).ok().unwrap();
+    arena.finish_cycle();
+    let held: bool = arena.mutate(|_mc, root| root.c.is_some());
+    if held && DROPPED.with(|d| d.get()) > 0 {{ println!("LOST"); std::process::exit(3); }}
+    if !held {{ println!("NOT-STORED"); std::process::exit(4); }}
+    arena.finish_cycle();
+    if DROPPED.with(|d| d.get()) > 0 {{ println!("LOST"); std::process::exit(3); }}
+    println!("OK");
+}}
+"#
             ),
         ),
         (
